@@ -692,9 +692,9 @@ Proof.
   - intros H. right. apply IH. exact H.
 Qed.
 
-Definition m1 (kv : string * val) (n : node) : bool :=
+Definition cond_match (kv : string * val) (n : node) : bool :=
   match lookup (fst kv) (nprops n) with Some v' => val_eqb v' (snd kv) | None => false end.
-Definition sat (conds : list (string * val)) (n : node) : bool := forallb (fun c => m1 c n) conds.
+Definition conds_sat (conds : list (string * val)) (n : node) : bool := forallb (fun c => cond_match c n) conds.
 Definition lblb (label : option string) (n : node) : bool :=
   match label with None => true | Some l => has_label n l end.
 
@@ -784,13 +784,13 @@ Lemma fold_filter_spec : forall st i0, store_ok st -> forall (numbered : list (n
                else filter (fun i => match node_prop st i (fst (snd ic)) with
                                      | Some v' => val_eqb v' (snd (snd ic)) | None => false end) cand)
             numbered (map nid (filter Q (nodes st)))
-  = map nid (filter (fun n => Q n && forallb (fun ic => Nat.eqb (fst ic) i0 || m1 (snd ic) n) numbered) (nodes st)).
+  = map nid (filter (fun n => Q n && forallb (fun ic => Nat.eqb (fst ic) i0 || cond_match (snd ic) n) numbered) (nodes st)).
 Proof.
   intros st i0 Hs. induction numbered as [|ic r IH]; intros Q.
   - cbn [fold_left forallb]. f_equal. apply filter_ext. intros n. rewrite andb_true_r. reflexivity.
   - cbn [fold_left forallb]. destruct (Nat.eqb (fst ic) i0) eqn:E.
     + rewrite IH. reflexivity.
-    + rewrite (filter_map_nid _ (m1 (snd ic)) Q (nodes st)).
+    + rewrite (filter_map_nid _ (cond_match (snd ic)) Q (nodes st)).
       * rewrite IH. f_equal. apply filter_ext. intros n. cbn [orb]. rewrite andb_assoc. reflexivity.
       * intros n Hn. rewrite (node_prop_nid st n _ Hs Hn). reflexivity.
 Qed.
@@ -800,24 +800,24 @@ Lemma fbp_tail : forall st conds i0 kv0, store_ok st -> List.In (i0, kv0) (numbe
                if Nat.eqb (fst ic) i0 then cand
                else filter (fun i => match node_prop st i (fst (snd ic)) with
                                      | Some v' => val_eqb v' (snd (snd ic)) | None => false end) cand)
-            (number_from O conds) (map nid (filter (m1 kv0) (nodes st)))
-  = map nid (filter (sat conds) (nodes st)).
+            (number_from O conds) (map nid (filter (cond_match kv0) (nodes st)))
+  = map nid (filter (conds_sat conds) (nodes st)).
 Proof.
   intros st conds i0 kv0 Hs Hin. rewrite (fold_filter_spec st i0 Hs). f_equal. apply filter_ext. intros n.
   apply eq_true_iff_eq. split.
   - intros H. apply andb_true_iff in H. destruct H as [H1 H2]. rewrite forallb_forall in H2.
-    unfold sat. apply forallb_forall. intros c Hc.
+    unfold conds_sat. apply forallb_forall. intros c Hc.
     destruct (number_from_In conds O c Hc) as [i Hi].
     specialize (H2 (i, c) Hi). cbn [fst snd] in H2. apply orb_true_iff in H2. destruct H2 as [H2|H2]; [|exact H2].
     apply Nat.eqb_eq in H2. subst i. rewrite (number_from_fun _ _ _ _ _ Hi Hin). exact H1.
-  - intros H. unfold sat in H. rewrite forallb_forall in H. apply andb_true_iff. split.
+  - intros H. unfold conds_sat in H. rewrite forallb_forall in H. apply andb_true_iff. split.
     + apply H. eapply number_from_snd. exact Hin.
     + apply forallb_forall. intros [i c] Hic. cbn [fst snd]. apply orb_true_iff. right.
       apply H. eapply number_from_snd. exact Hic.
 Qed.
 
 Lemma find_by_props_spec : forall st conds, store_ok st -> conds <> [] ->
-  find_by_props st (idx_of st) conds = map nid (filter (sat conds) (nodes st)).
+  find_by_props st (idx_of st) conds = map nid (filter (conds_sat conds) (nodes st)).
 Proof.
   intros st conds Hs Hne. destruct conds as [|c0 rest]; [congruence|]. clear Hne.
   unfold find_by_props.
@@ -831,9 +831,9 @@ Proof.
     destruct Hh as [<-|[]]. cbn [snd] in Hem. unfold idx_of in Hem.
     destruct (map nid _) eqn:Em in Hem; [|discriminate]. apply map_eq_nil in Em.
     rewrite filter_nil; [reflexivity|]. intros n Hn.
-    destruct (sat conds n) eqn:Es; [|reflexivity]. exfalso.
-    unfold sat in Es. rewrite forallb_forall in Es.
-    assert (Hm : m1 (snd ic) n = true).
+    destruct (conds_sat conds n) eqn:Es; [|reflexivity]. exfalso.
+    unfold conds_sat in Es. rewrite forallb_forall in Es.
+    assert (Hm : cond_match (snd ic) n = true).
     { apply Es. destruct ic as [i c]. eapply number_from_snd. exact Hic. }
     assert (Hf : List.In n (filter (fun n0 => match lookup (fst (snd ic)) (nprops n0) with
                                              | Some v' => val_eqb v' (snd (snd ic)) | None => false end) (nodes st))).
@@ -910,11 +910,11 @@ Qed.
 Lemma eq_leaf_passes : forall st x n k v, store_ok st -> vals_ok st -> List.In n (nodes st) ->
   val_ok v = true -> num_mix st k v = false ->
   (match (let? c := row_look [x] [CNode (nid n)] x in fprop st c k) with
-   | Some v' => feq v' v | None => false end) = m1 (k, v) n.
+   | Some v' => feq v' v | None => false end) = cond_match (k, v) n.
 Proof.
   intros st x n k v Hs Hv Hn Hl Hm.
   rewrite row_look_single. cbn [obind]. unfold fprop. cbn [cell_node_id].
-  rewrite (get_node_nid st n Hs Hn). unfold m1. cbn [fst snd].
+  rewrite (get_node_nid st n Hs Hn). unfold cond_match. cbn [fst snd].
   destruct (lookup k (nprops n)) as [v'|] eqn:El; [|reflexivity].
   apply feq_val_eqb; [|exact Hl|].
   - apply (Hv n k v' Hn). apply lookup_In. exact El.
@@ -924,7 +924,7 @@ Qed.
 Lemma eq_conds_passes : forall st x n e, store_ok st -> vals_ok st -> List.In n (nodes st) ->
   lits_ok e = true -> only_eq_conds x e = true ->
   (forall c, List.In c (collect_eq x e) -> num_mix st (fst c) (snd c) = false) ->
-  passes_row st [x] [CNode (nid n)] e = sat (collect_eq x e) n.
+  passes_row st [x] [CNode (nid n)] e = conds_sat (collect_eq x e) n.
 Proof.
   intros st x n e Hs Hv Hn.
   induction e as [v|y|y k|op a IHa b IHb|a IHa b IHb|a IHa b IHb|a IHa|a IHa|a IHa|y l|l y];
@@ -934,14 +934,14 @@ Proof.
     destruct b as [vb|yb|xb kb|? ? ?|? ?|? ?|?|?|?|? ?|? ?]; try discriminate.
     + cbn [lits_ok] in Hl. apply andb_true_iff in Hl. destruct Hl as [Hl _].
       cbn [collect_eq] in Hm |- *. rewrite Ho in Hm |- *. apply String.eqb_eq in Ho. subst xb.
-      unfold sat. cbn [forallb]. rewrite andb_true_r.
+      unfold conds_sat. cbn [forallb]. rewrite andb_true_r.
       rewrite <- (eq_leaf_passes st x n kb va Hs Hv Hn Hl (Hm (kb, va) (or_introl eq_refl))).
       unfold passes_row, passes. cbn [eval obind].
       destruct (let? c := row_look [x] [CNode (nid n)] x in fprop st c kb) as [v'|]; cbn [obind cmp_result]; [|reflexivity].
       rewrite (feq_sym va v'). destruct (feq v' va); reflexivity.
     + cbn [lits_ok] in Hl. apply andb_true_iff in Hl. destruct Hl as [_ Hl].
       cbn [collect_eq] in Hm |- *. rewrite Ho in Hm |- *. apply String.eqb_eq in Ho. subst xa.
-      unfold sat. cbn [forallb]. rewrite andb_true_r.
+      unfold conds_sat. cbn [forallb]. rewrite andb_true_r.
       rewrite <- (eq_leaf_passes st x n ka vb Hs Hv Hn Hl (Hm (ka, vb) (or_introl eq_refl))).
       unfold passes_row, passes. cbn [eval obind].
       destruct (let? c := row_look [x] [CNode (nid n)] x in fprop st c ka) as [v'|]; cbn [obind cmp_result]; [|reflexivity].
@@ -949,7 +949,7 @@ Proof.
   - cbn [lits_ok] in Hl. apply andb_true_iff in Hl. destruct Hl as [Hla Hlb].
     apply andb_true_iff in Ho. destruct Ho as [Hoa Hob].
     cbn [collect_eq] in Hm |- *.
-    rewrite passes_and. unfold sat. rewrite forallb_app. fold (sat (collect_eq x a) n) (sat (collect_eq x b) n).
+    rewrite passes_and. unfold conds_sat. rewrite forallb_app. fold (conds_sat (collect_eq x a) n) (conds_sat (collect_eq x b) n).
     rewrite IHa, IHb; auto; intros c Hc; apply Hm, in_or_app; auto.
 Qed.
 
@@ -974,7 +974,7 @@ Proof.
   rewrite map_map. symmetry.
   etransitivity;
     [apply (filter_map_rows (fun r => passes_row st [x] r e) (fun n => [CNode (nid n)])
-              (sat (c0 :: rest)) (lblb label) (nodes st))|].
+              (conds_sat (c0 :: rest)) (lblb label) (nodes st))|].
   - intros n Hn. rewrite <- Ec. apply eq_conds_passes; try assumption. rewrite Ec. exact Hm.
   - f_equal. apply filter_ext. intros n. apply andb_comm.
 Qed.
@@ -1214,19 +1214,19 @@ Section FtreeInd.
 End FtreeInd.
 
 (** a path as (cells above the deepest entry, cells of the deepest entry) *)
-Definition pre (c : row) (pl : row * row) : row * row := (c ++ fst pl, snd pl).
+Definition pl_pre (c : row) (pl : row * row) : row * row := (c ++ fst pl, snd pl).
 Fixpoint lpaths (t : ftree) : list (row * row) :=
   match t with
   | FNode c None => [([], c)]
-  | FNode c (Some kids) => flat_map (fun k => map (pre c) (lpaths k)) kids
+  | FNode c (Some kids) => flat_map (fun k => map (pl_pre c) (lpaths k)) kids
   end.
-Definition join (pl : row * row) : row := fst pl ++ snd pl.
+Definition pl_join (pl : row * row) : row := fst pl ++ snd pl.
 Definition lpathsF (f : list ftree) : list (row * row) := lpaths (FNode [] (Some f)).
 
-Lemma join_pre : forall c pl, join (pre c pl) = c ++ join pl.
-Proof. intros c pl. unfold join, pre. cbn [fst snd]. rewrite app_assoc. reflexivity. Qed.
+Lemma join_pre : forall c pl, pl_join (pl_pre c pl) = c ++ pl_join pl.
+Proof. intros c pl. unfold pl_join, pl_pre. cbn [fst snd]. rewrite app_assoc. reflexivity. Qed.
 
-Lemma paths_lpaths : forall t, paths t = map join (lpaths t).
+Lemma paths_lpaths : forall t, paths t = map pl_join (lpaths t).
 Proof.
   apply ftree_ind'.
   - intros c. reflexivity.
@@ -1239,7 +1239,7 @@ Qed.
 Lemma map_app_nil : forall (l : list row), map (app []) l = l.
 Proof. induction l as [|a l IH]; cbn [map]; [reflexivity|]. rewrite IH. reflexivity. Qed.
 
-Lemma paths_forest : forall f, flat_map paths f = map join (lpathsF f).
+Lemma paths_forest : forall f, flat_map paths f = map pl_join (lpathsF f).
 Proof.
   intros f. unfold lpathsF. rewrite <- paths_lpaths. cbn [paths].
   induction f as [|k r IH]; [reflexivity|]. cbn [flat_map]. rewrite map_app_nil, IH. reflexivity.
@@ -1254,22 +1254,22 @@ Qed.
 
 Section Grow.
   Variables (st : store) (ci : bool) (idx : nat) (d : dir) (ty : option string).
-  Definition E (pl : row * row) : list (row * row) :=
+  Definition grow_exp (pl : row * row) : list (row * row) :=
     match leaf_src idx (snd pl) with
-    | Ok (Some n) => map (fun te => (join pl, [CEdge (snd te); CNode (fst te)])) (neighbors st ci n d ty)
+    | Ok (Some n) => map (fun te => (pl_join pl, [CEdge (snd te); CNode (fst te)])) (neighbors st ci n d ty)
     | _ => []
     end.
   Definition srcs_ok (L : list (row * row)) : Prop :=
     forall pl, List.In pl L -> exists n, leaf_src idx (snd pl) = Ok (Some n).
 
-  Lemma E_pre : forall c pl, E (pre c pl) = map (pre c) (E pl).
+  Lemma E_pre : forall c pl, grow_exp (pl_pre c pl) = map (pl_pre c) (grow_exp pl).
   Proof.
-    intros c pl. unfold E. cbn [pre snd].
+    intros c pl. unfold grow_exp. cbn [pl_pre snd].
     destruct (leaf_src idx (snd pl)) as [[n|]|]; try reflexivity.
     rewrite map_map. apply map_ext. intros te. rewrite join_pre. reflexivity.
   Qed.
 
-  Lemma flat_map_E_pre : forall c L, flat_map E (map (pre c) L) = map (pre c) (flat_map E L).
+  Lemma flat_map_E_pre : forall c L, flat_map grow_exp (map (pl_pre c) L) = map (pl_pre c) (flat_map grow_exp L).
   Proof.
     intros c L. induction L as [|a L IH]; [reflexivity|].
     cbn [map flat_map]. rewrite map_app, E_pre, IH. reflexivity.
@@ -1286,22 +1286,22 @@ Section Grow.
 
   Definition grow_ok (t : ftree) : Prop :=
     srcs_ok (lpaths t) ->
-    exists t', grow st ci idx d ty t = Ok (t', List.length (lpaths t')) /\ lpaths t' = flat_map E (lpaths t).
+    exists t', grow st ci idx d ty t = Ok (t', List.length (lpaths t')) /\ lpaths t' = flat_map grow_exp (lpaths t).
 
   Lemma grow_forest_spec : forall c kids, Forall grow_ok kids ->
-    srcs_ok (flat_map (fun k => map (pre c) (lpaths k)) kids) ->
+    srcs_ok (flat_map (fun k => map (pl_pre c) (lpaths k)) kids) ->
     exists f', grow_forest st ci idx d ty kids
-               = Ok (f', List.length (flat_map (fun k => map (pre c) (lpaths k)) f')) /\
-               flat_map (fun k => map (pre c) (lpaths k)) f'
-               = flat_map E (flat_map (fun k => map (pre c) (lpaths k)) kids).
+               = Ok (f', List.length (flat_map (fun k => map (pl_pre c) (lpaths k)) f')) /\
+               flat_map (fun k => map (pl_pre c) (lpaths k)) f'
+               = flat_map grow_exp (flat_map (fun k => map (pl_pre c) (lpaths k)) kids).
   Proof.
     intros c kids H. induction H as [|k r Hk Hr IH]; intros Hs.
     - exists []. split; reflexivity.
     - cbn [flat_map] in Hs.
       assert (Hs1 : srcs_ok (lpaths k)).
-      { intros pl Hpl. destruct (Hs (pre c pl)) as [n Hn]; [apply in_or_app; left; apply in_map; exact Hpl|].
+      { intros pl Hpl. destruct (Hs (pl_pre c pl)) as [n Hn]; [apply in_or_app; left; apply in_map; exact Hpl|].
         exists n. exact Hn. }
-      assert (Hs2 : srcs_ok (flat_map (fun k => map (pre c) (lpaths k)) r)).
+      assert (Hs2 : srcs_ok (flat_map (fun k => map (pl_pre c) (lpaths k)) r)).
       { intros pl Hpl. apply Hs. apply in_or_app. right. exact Hpl. }
       destruct (Hk Hs1) as (k' & Hk1 & Hk2). destruct (IH Hs2) as (f'' & Hf1 & Hf2).
       exists (k' :: f''). cbn [grow_forest]. rewrite Hk1, Hf1. cbn [rbind fst snd]. split.
@@ -1315,10 +1315,10 @@ Section Grow.
     - intros c Hs. destruct (Hs ([], c) (or_introl eq_refl)) as [n Hn]. cbn [snd] in Hn.
       cbn [grow]. rewrite Hn. cbn [rbind].
       eexists. split.
-      + f_equal. f_equal. cbn [lpaths]. rewrite (leaves_lpaths (pre c)). rewrite !map_length. reflexivity.
-      + cbn [lpaths]. rewrite (leaves_lpaths (pre c)). cbn [flat_map]. rewrite app_nil_r.
-        unfold E. cbn [snd]. rewrite Hn. apply map_ext. intros te.
-        unfold pre, join. cbn [fst snd app]. rewrite app_nil_r. reflexivity.
+      + f_equal. f_equal. cbn [lpaths]. rewrite (leaves_lpaths (pl_pre c)). rewrite !map_length. reflexivity.
+      + cbn [lpaths]. rewrite (leaves_lpaths (pl_pre c)). cbn [flat_map]. rewrite app_nil_r.
+        unfold grow_exp. cbn [snd]. rewrite Hn. apply map_ext. intros te.
+        unfold pl_pre, pl_join. cbn [fst snd app]. rewrite app_nil_r. reflexivity.
     - intros c kids H Hs. cbn [lpaths] in Hs.
       destruct (grow_forest_spec c kids H Hs) as (f' & Hf1 & Hf2).
       rewrite grow_kids, Hf1. cbn [rbind fst snd].
@@ -1327,7 +1327,7 @@ Section Grow.
 
   Lemma grow_forest_top : forall f, srcs_ok (lpathsF f) ->
     exists f', grow_forest st ci idx d ty f = Ok (f', List.length (lpathsF f')) /\
-               lpathsF f' = flat_map E (lpathsF f).
+               lpathsF f' = flat_map grow_exp (lpathsF f).
   Proof.
     intros f Hs. unfold lpathsF in *. cbn [lpaths] in *.
     apply grow_forest_spec; [|exact Hs].
@@ -1336,31 +1336,31 @@ Section Grow.
 
   Lemma expand_match : forall cs from L,
     (forall x, neighbors st true x d ty = neighbors st ci x d ty) ->
-    (forall pl n, List.In pl L -> src_of cs from (join pl) = Ok n -> leaf_src idx (snd pl) = Ok (Some n)) ->
-    forall rs1, expand_rows st true cs from d ty (map join L) = Ok rs1 ->
-    srcs_ok L /\ rs1 = map join (flat_map E L).
+    (forall pl n, List.In pl L -> src_of cs from (pl_join pl) = Ok n -> leaf_src idx (snd pl) = Ok (Some n)) ->
+    forall rs1, expand_rows st true cs from d ty (map pl_join L) = Ok rs1 ->
+    srcs_ok L /\ rs1 = map pl_join (flat_map grow_exp L).
   Proof.
     intros cs from L Hci. unfold expand_rows.
     induction L as [|a L IH]; intros Hag rs1 Hex.
     - cbn in Hex. injection Hex as <-. split; [intros pl []|reflexivity].
     - cbn [map rmapM] in Hex.
-      destruct (src_of cs from (join a)) as [n|] eqn:Es; cbn [rbind] in Hex; [|discriminate].
-      destruct (rmapM _ (map join L)) as [y|] eqn:Er; cbn [rbind] in Hex; [|discriminate].
+      destruct (src_of cs from (pl_join a)) as [n|] eqn:Es; cbn [rbind] in Hex; [|discriminate].
+      destruct (rmapM _ (map pl_join L)) as [y|] eqn:Er; cbn [rbind] in Hex; [|discriminate].
       injection Hex as <-.
       destruct (IH (fun pl n Hpl => Hag pl n (or_intror Hpl)) y eq_refl) as [Hs ->].
       pose proof (Hag a n (or_introl eq_refl) Es) as Hl.
       split.
       + intros pl [<-|Hpl]; [exists n; exact Hl|apply Hs; exact Hpl].
       + cbn [flat_map]. rewrite map_app. f_equal.
-        unfold E. rewrite Hl, map_map, Hci. reflexivity.
+        unfold grow_exp. rewrite Hl, map_map, Hci. reflexivity.
   Qed.
 
   Lemma one_step : forall cs from f rs1,
     (forall x, neighbors st true x d ty = neighbors st ci x d ty) ->
-    (forall pl n, List.In pl (lpathsF f) -> src_of cs from (join pl) = Ok n -> leaf_src idx (snd pl) = Ok (Some n)) ->
-    expand_rows st true cs from d ty (map join (lpathsF f)) = Ok rs1 ->
+    (forall pl n, List.In pl (lpathsF f) -> src_of cs from (pl_join pl) = Ok n -> leaf_src idx (snd pl) = Ok (Some n)) ->
+    expand_rows st true cs from d ty (map pl_join (lpathsF f)) = Ok rs1 ->
     exists f1, grow_forest st ci idx d ty f = Ok (f1, List.length (lpathsF f1)) /\
-               lpathsF f1 = flat_map E (lpathsF f) /\ rs1 = map join (lpathsF f1).
+               lpathsF f1 = flat_map grow_exp (lpathsF f) /\ rs1 = map pl_join (lpathsF f1).
   Proof.
     intros cs from f rs1 Hci Hag Hex.
     destruct (expand_match cs from (lpathsF f) Hci Hag rs1 Hex) as [Hs ->].
@@ -1368,11 +1368,11 @@ Section Grow.
     exists f1. split; [exact H1|]. split; [exact H2|]. rewrite H2. reflexivity.
   Qed.
 
-  Lemma E_shape : forall L pl', List.In pl' (flat_map E L) ->
-    exists pl e n, List.In pl L /\ pl' = (join pl, [CEdge e; CNode n]).
+  Lemma E_shape : forall L pl', List.In pl' (flat_map grow_exp L) ->
+    exists pl e n, List.In pl L /\ pl' = (pl_join pl, [CEdge e; CNode n]).
   Proof.
     intros L pl' H. apply in_flat_map in H. destruct H as (pl & Hpl & H).
-    unfold E in H. destruct (leaf_src idx (snd pl)) as [[n|]|]; try contradiction.
+    unfold grow_exp in H. destruct (leaf_src idx (snd pl)) as [[n|]|]; try contradiction.
     apply in_map_iff in H. destruct H as (te & <- & _).
     exists pl, (snd te), (fst te). auto.
   Qed.
@@ -1443,9 +1443,9 @@ Qed.
 
 (** the steps after the first *)
 Lemma fact_steps_flat_later : forall st i0 steps f cs rs added f' a t,
-  rs = map join (lpathsF f) ->
+  rs = map pl_join (lpathsF f) ->
   (forall pl, List.In pl (lpathsF f) -> exists e n, snd pl = [CEdge e; CNode n]) ->
-  (forall pl, List.In pl (lpathsF f) -> List.length (join pl) = List.length cs) ->
+  (forall pl, List.In pl (lpathsF f) -> List.length (pl_join pl) = List.length cs) ->
   (exists seen e to, cs = seen ++ [e; to] /\ ~ List.In to seen /\ to <> e /\ steps_path cs (Some to) steps) ->
   forallb (type_cond st) steps = true ->
   flat_steps st (mkT cs rs) steps = Ok t ->
@@ -1470,7 +1470,7 @@ Proof.
     destruct (one_step st false 1%nat (s_dir s) (s_type s) cs to f rs1) as (f1 & Hg & Hl1 & Hrs1).
     + intros x. apply neighbors_ci. exact Htc1.
     + intros pl n Hpl Hsrc. destruct (Hleaf pl Hpl) as (e' & n' & Hsn).
-      pose proof (Hlen pl Hpl) as Hl. unfold join in Hl, Hsrc. rewrite Hsn in Hl, Hsrc.
+      pose proof (Hlen pl Hpl) as Hl. unfold pl_join in Hl, Hsrc. rewrite Hsn in Hl, Hsrc.
       rewrite Ecs, !app_length in Hl. cbn [List.length] in Hl.
       unfold src_of in Hsrc. rewrite Hpos in Hsrc. cbn [of_opt rbind] in Hsrc.
       rewrite nth_error_app2 in Hsrc by lia.
@@ -1486,7 +1486,7 @@ Proof.
         -- intros pl' Hpl'. rewrite Hl1 in Hpl'. apply E_shape in Hpl'.
            destruct Hpl' as (pl & e' & n' & _ & ->). exists e', n'. reflexivity.
         -- intros pl' Hpl'. rewrite Hl1 in Hpl'. apply E_shape in Hpl'.
-           destruct Hpl' as (pl & e' & n' & Hpl & ->). unfold join at 1. cbn [fst snd].
+           destruct Hpl' as (pl & e' & n' & Hpl & ->). unfold pl_join at 1. cbn [fst snd].
            rewrite !app_length, (Hlen pl Hpl). reflexivity.
         -- exists cs, e2, to2. auto.
         -- cbn [List.length] in Ha. lia.
@@ -1533,8 +1533,8 @@ Proof.
     injection Hfact as <- <-.
     set (f0 := map (fun r1 => FNode r1 None) (rows b)) in *.
     assert (HL0 : lpathsF f0 = map (fun r1 => ([], r1)) (rows b)).
-    { unfold lpathsF, f0. cbn [lpaths]. rewrite (leaves_lpaths (pre []) (fun r1 : row => r1)). reflexivity. }
-    assert (Hrows : rows b = map join (lpathsF f0)).
+    { unfold lpathsF, f0. cbn [lpaths]. rewrite (leaves_lpaths (pl_pre []) (fun r1 : row => r1)). reflexivity. }
+    assert (Hrows : rows b = map pl_join (lpathsF f0)).
     { rewrite HL0, map_map. symmetry. apply map_id. }
     cbn [steps_path] in Hsp. destruct Hsp as [_ Hsp].
     destruct (s_cols s0) as [|e [|to [|? ?]]] eqn:Esc; try contradiction.
@@ -1546,7 +1546,7 @@ Proof.
     destruct (one_step st true i0 (s_dir s0) (s_type s0) (cols b) (s_from s0) f0 rs1) as (f1 & Hg & Hl1 & Hrs1).
     + reflexivity.
     + intros pl n Hpl Hsrc. rewrite HL0 in Hpl. apply in_map_iff in Hpl. destruct Hpl as (r1 & <- & _).
-      unfold join in Hsrc. cbn [fst snd app] in Hsrc |- *.
+      unfold pl_join in Hsrc. cbn [fst snd app] in Hsrc |- *.
       unfold src_of in Hsrc. rewrite Epos in Hsrc. cbn [of_opt rbind] in Hsrc. unfold leaf_src.
       destruct (nth_error r1 i0) as [c|]; cbn [of_opt rbind] in Hsrc; [|discriminate].
       destruct (cell_node_id c); cbn [of_opt] in Hsrc; [|discriminate]. injection Hsrc as <-. reflexivity.
@@ -1559,9 +1559,851 @@ Proof.
         -- intros pl' Hpl'. rewrite Hl1 in Hpl'. apply E_shape in Hpl'.
            destruct Hpl' as (pl & e' & n' & _ & ->). exists e', n'. reflexivity.
         -- intros pl' Hpl'. rewrite Hl1 in Hpl'. apply E_shape in Hpl'.
-           destruct Hpl' as (pl & e' & n' & Hpl & ->). unfold join at 1. cbn [fst snd].
+           destruct Hpl' as (pl & e' & n' & Hpl & ->). unfold pl_join at 1. cbn [fst snd].
            rewrite !app_length. cbn [List.length]. f_equal.
            rewrite HL0 in Hpl. apply in_map_iff in Hpl. destruct Hpl as (r1 & <- & Hr1).
-           unfold join. cbn [fst snd app]. unfold rows_wf in Hwf. rewrite Forall_forall in Hwf. apply Hwf. exact Hr1.
+           unfold pl_join. cbn [fst snd app]. unfold rows_wf in Hwf. rewrite Forall_forall in Hwf. apply Hwf. exact Hr1.
         -- exists (cols b), e, to. auto.
+Qed.
+
+
+(** * (8) The composite *)
+
+Fixpoint plan_chain (p : lop) : lop :=
+  match p with
+  | LReturn _ _ i | LProject _ i | LSort _ i | LSkip _ i | LLimit _ i | LDistinct i | LAggregate _ _ i => plan_chain i
+  | _ => p
+  end.
+Definition plan_hygiene (p : lop) : Prop :=
+  chain_hygiene (plan_chain p) /\
+  forall e i, List.In (LFilter e i) (subplans p) -> ~ List.In anon (expr_props e).
+
+(** ** subplans *)
+Lemma subplans_refl : forall p, List.In p (subplans p).
+Proof. intros p. destruct p; left; reflexivity. Qed.
+
+Lemma subplans_trans : forall p s s', List.In s (subplans p) -> List.In s' (subplans s) -> List.In s' (subplans p).
+Proof.
+  induction p; intros s s' H Hs'; cbn [subplans] in H |- *;
+    (destruct H as [<-|H]; [exact Hs'|]); try contradiction; right; eauto.
+Qed.
+
+Lemma sub_filter_input : forall p e i, List.In (LFilter e i) (subplans p) -> List.In i (subplans p).
+Proof. intros p e i H. eapply subplans_trans; [exact H|]. right. apply subplans_refl. Qed.
+Lemma sub_expand_input : forall p f t ev d ty mn mx i,
+  List.In (LExpand f t ev d ty mn mx i) (subplans p) -> List.In i (subplans p).
+Proof. intros. eapply subplans_trans; [eassumption|]. right. apply subplans_refl. Qed.
+
+Lemma chain_only_sub : forall q s, chain_only q = true -> List.In s (subplans q) -> chain_only s = true.
+Proof.
+  induction q; intros s Hq H; cbn [chain_only] in Hq; try discriminate; cbn [subplans] in H;
+    (destruct H as [<-|H]; [exact Hq|]); try contradiction; eauto.
+Qed.
+
+Lemma chain_steps_sub : forall q, List.In (snd (chain_steps q)) (subplans q).
+Proof.
+  induction q; try (left; reflexivity).
+  cbn [chain_steps]. destruct (is_single_hop minh maxh); [|left; reflexivity].
+  destruct (chain_steps q) as [ss b]. cbn [snd] in *. right. exact IHq.
+Qed.
+
+(** ** (i) the chain that [runc] tracks *)
+Definition chain_of (o : opts) (st : store) (q : lop) : option chain :=
+  match q with
+  | LExpand _ _ _ _ _ minh maxh _ =>
+      if is_single_hop minh maxh
+      then Some (mkChain (fst (runc o st (snd (chain_steps q)))) (fst (chain_steps q)))
+      else None
+  | _ => None
+  end.
+
+Lemma chain_of_none : forall o st q, chain_of o st q = None -> chain_steps q = ([], q).
+Proof.
+  intros o st q H. destruct q; try reflexivity. cbn [chain_of] in H. cbn [chain_steps].
+  destruct (is_single_hop minh maxh); [discriminate|reflexivity].
+Qed.
+
+Lemma chain_of_some : forall o st q c, chain_of o st q = Some c ->
+  c = mkChain (fst (runc o st (snd (chain_steps q)))) (fst (chain_steps q)).
+Proof.
+  intros o st q c H. destruct q; try discriminate. unfold chain_of in H.
+  destruct (is_single_hop minh maxh); [|discriminate]. injection H as <-. reflexivity.
+Qed.
+
+Lemma runc_chain : forall o st q, snd (runc o st q) = chain_of o st q.
+Proof.
+  intros o st q. induction q; try reflexivity.
+  - cbn [runc]. destruct (runc o st q) as [rin cin] eqn:E. cbn [snd] in IHq.
+    assert (Hr : rin = fst (runc o st q)) by (rewrite E; reflexivity).
+    cbn [chain_of]. destruct (is_single_hop minh maxh) eqn:Hs; [|reflexivity]. cbn [snd]. f_equal.
+    cbn [chain_steps]. rewrite Hs. subst cin rin.
+    destruct (chain_of o st q) as [c|] eqn:Ec.
+    + rewrite (chain_of_some _ _ _ _ Ec). cbn [ch_base ch_steps].
+      destruct (chain_steps q) as [ss b]. reflexivity.
+    + rewrite (chain_of_none _ _ _ Ec). reflexivity.
+  - cbn [runc]. destruct (runc o st q); reflexivity.
+  - cbn [runc]. destruct (runc o st q); reflexivity.
+Qed.
+
+(** ** (ii) [sem_ops] of a chain of single-hop expands *)
+Lemma rbind_ok : forall {A} (r : res A), (do x <- r; Ok x) = r.
+Proof. intros A r. destruct r; reflexivity. Qed.
+
+Lemma flat_steps_app : forall st ss s t,
+  flat_steps st t (ss ++ [s]) = do t' <- flat_steps st t ss; flat_steps st t' [s].
+Proof.
+  intros st ss s. induction ss as [|s1 r IH]; intros t; [reflexivity|].
+  cbn [app flat_steps].
+  destruct (of_opt (pos_first (s_from s1) (cols t))); cbn [rbind]; [|reflexivity].
+  destruct (expand_rows st true (cols t) (s_from s1) (s_dir s1) (s_type s1) (rows t)); cbn [rbind]; [|reflexivity].
+  apply IH.
+Qed.
+
+Lemma sem_ops_chain : forall st q,
+  sem_ops st q = do tb <- sem_ops st (snd (chain_steps q)); flat_steps st tb (fst (chain_steps q)).
+Proof.
+  intros st q. induction q;
+    try (cbn [chain_steps fst snd flat_steps]; symmetry; apply rbind_ok).
+  cbn [chain_steps]. destruct (is_single_hop minh maxh) eqn:Hs;
+    [|cbn [fst snd flat_steps]; symmetry; apply rbind_ok].
+  destruct (chain_steps q) as [ss b]. cbn [fst snd] in *.
+  cbn [sem_ops]. rewrite IHq, Hs.
+  destruct (sem_ops st b) as [tb|]; cbn [rbind]; [|reflexivity].
+  rewrite flat_steps_app.
+  destruct (flat_steps st tb ss) as [t'|]; cbn [rbind]; [|reflexivity].
+  cbn [flat_steps s_from s_dir s_type s_cols].
+  destruct (of_opt (pos_first from (cols t'))); cbn [rbind]; [|reflexivity].
+  destruct (expand_rows st true (cols t') from d ty (rows t')); reflexivity.
+Qed.
+
+Lemma chain_cols_steps : forall q, chain_only q = true ->
+  chain_cols_of q = chain_cols_of (snd (chain_steps q)) ++ flat_map s_cols (fst (chain_steps q)).
+Proof.
+  induction q; intros Hq; cbn [chain_only] in Hq; try discriminate;
+    try (cbn [chain_steps fst snd flat_map]; rewrite app_nil_r; reflexivity).
+  cbn [chain_steps]. destruct (is_single_hop minh maxh);
+    [|cbn [fst snd flat_map]; rewrite app_nil_r; reflexivity].
+  specialize (IHq Hq). destruct (chain_steps q) as [ss b]. cbn [fst snd] in *.
+  cbn [chain_cols_of]. rewrite IHq, flat_map_app. cbn [flat_map s_cols]. rewrite app_nil_r, app_assoc. reflexivity.
+Qed.
+
+(** ** (iii) typing of chain tables *)
+Definition cell_typed (ecs : list string) (name : string) (c : cell) : Prop :=
+  (exists i, c = CNode i) \/ ((exists i, c = CEdge i) /\ List.In name ecs).
+Definition tbl_typed (ecs : list string) (t : tbl) : Prop :=
+  Forall (fun r => Forall2 (cell_typed ecs) (cols t) r) (rows t).
+
+Lemma cell_typed_mono : forall ecs ecs' n c, incl ecs ecs' -> cell_typed ecs n c -> cell_typed ecs' n c.
+Proof. intros ecs ecs' n c Hi [H|[H1 H2]]; [left; exact H|right; split; auto]. Qed.
+
+Lemma rmapM_in : forall {A B} (f : A -> res (list B)) l out y, rmapM f l = Ok out -> List.In y out ->
+  exists a x, List.In a l /\ f a = Ok x /\ List.In y x.
+Proof.
+  intros A B f l. induction l as [|a l IH]; intros out y H Hy.
+  - cbn in H. injection H as <-. contradiction.
+  - cbn [rmapM] in H. destruct (f a) as [x|] eqn:Ef; cbn [rbind] in H; [|discriminate].
+    destruct (rmapM f l) as [z|] eqn:Er; cbn [rbind] in H; [|discriminate]. injection H as <-.
+    apply in_app_or in Hy. destruct Hy as [Hy|Hy].
+    + exists a, x. split; [left; reflexivity|auto].
+    + destruct (IH z y eq_refl Hy) as (a' & x' & Ha' & Hf' & Hy'). exists a', x'. split; [right; exact Ha'|auto].
+Qed.
+
+Lemma Forall2_map_r : forall {A B C} (P : A -> B -> Prop) (Q : A -> C -> Prop) (g : B -> C) l r,
+  Forall2 P l r -> (forall a b, P a b -> Q a (g b)) -> Forall2 Q l (map g r).
+Proof. intros A B C P Q g l r H Hg. induction H; cbn [map]; constructor; auto. Qed.
+
+Lemma Forall2_impl' : forall {A B} (P Q : A -> B -> Prop) l r,
+  (forall a b, P a b -> Q a b) -> Forall2 P l r -> Forall2 Q l r.
+Proof. intros A B P Q l r Hi H. induction H; constructor; auto. Qed.
+
+Lemma chain_typed : forall st q t, chain_only q = true -> sem_ops st q = Ok t ->
+  cols t = chain_cols_of q /\ tbl_typed (chain_edge_cols q) t.
+Proof.
+  intros st q. induction q; intros t Hq H; cbn [chain_only] in Hq; try discriminate.
+  - cbn in H. injection H as <-. split; [reflexivity|].
+    unfold tbl_typed. cbn [rows cols mkT]. unfold scan_rows. apply Forall_forall. intros r Hr.
+    apply in_map_iff in Hr. destruct Hr as (n & <- & _). constructor; [|constructor]. left. eexists. reflexivity.
+  - cbn [sem_ops] in H. destruct (sem_ops st q) as [ti|] eqn:Ei; cbn [rbind] in H; [|discriminate].
+    destruct (IHq ti Hq eq_refl) as [Hc Ht].
+    destruct (of_opt (pos_first from (cols ti))); cbn [rbind] in H; [|discriminate].
+    match type of H with (do rs <- ?X; _) = _ => destruct X as [rs|] eqn:Ers end; cbn [rbind] in H; [|discriminate].
+    injection H as <-. cbn [cols rows mkT chain_cols_of chain_edge_cols]. split; [rewrite Hc; reflexivity|].
+    unfold tbl_typed in *. cbn [cols rows mkT]. apply Forall_forall. intros r' Hr'.
+    rewrite Forall_forall in Ht.
+    assert (Hnew : forall ea nb, Forall2 (cell_typed (edge_col ev :: chain_edge_cols q)) [edge_col ev; to] [CEdge ea; CNode nb]).
+    { intros ea nb. constructor; [right; split; [eexists; reflexivity|left; reflexivity]|].
+      constructor; [left; eexists; reflexivity|constructor]. }
+    destruct (is_single_hop minh maxh).
+    + unfold expand_rows in Ers. destruct (rmapM_in _ _ _ _ Ers Hr') as (r & x & Hr & Hf & Hx).
+      destruct (src_of (cols ti) from r); cbn [rbind] in Hf; [|discriminate]. injection Hf as <-.
+      apply in_map_iff in Hx. destruct Hx as (te & <- & _).
+      apply Forall2_app; [|apply Hnew].
+      eapply Forall2_impl'; [|apply Ht; exact Hr]. intros n c. apply cell_typed_mono. apply incl_tl, incl_refl.
+    + unfold vle_rows in Ers. destruct (rmapM_in _ _ _ _ Ers Hr') as (r & x & Hr & Hf & Hx).
+      destruct (src_of (cols ti) from r); cbn [rbind] in Hf; [|discriminate]. injection Hf as <-.
+      apply in_map_iff in Hx. destruct Hx as (te & <- & _).
+      apply Forall2_app; [|apply Hnew].
+      eapply (Forall2_map_r (cell_typed (chain_edge_cols q))); [apply Ht; exact Hr|].
+      intros n c [[i ->]|[[i ->] Hin]].
+      * left. exists i. reflexivity.
+      * right. split; [exists i; reflexivity|right; exact Hin].
+  - cbn [sem_ops] in H. destruct (sem_ops st q) as [ti|] eqn:Ei; cbn [rbind] in H; [|discriminate].
+    destruct (IHq ti Hq eq_refl) as [Hc Ht]. injection H as <-.
+    cbn [chain_cols_of chain_edge_cols]. split; [exact Hc|].
+    unfold tbl_typed, filter_tbl in *. cbn [cols rows mkT]. rewrite Forall_forall in *.
+    intros r Hr. apply filter_In in Hr. apply Ht. tauto.
+Qed.
+
+Lemma plan_cols_chain : forall st q t, chain_only q = true -> sem_ops st q = Ok t -> plan_cols q = Ok (cols t).
+Proof.
+  intros st q. induction q; intros t Hq H; cbn [chain_only] in Hq; try discriminate.
+  - cbn in H. injection H as <-. reflexivity.
+  - cbn [sem_ops] in H. destruct (sem_ops st q) as [ti|] eqn:Ei; cbn [rbind] in H; [|discriminate].
+    cbn [plan_cols]. rewrite (IHq ti Hq eq_refl). cbn [rbind].
+    destruct (of_opt (pos_first from (cols ti))); cbn [rbind] in H |- *; [|discriminate].
+    match type of H with (do rs <- ?X; _) = _ => destruct X as [rs|] end; cbn [rbind] in H; [|discriminate].
+    injection H as <-. reflexivity.
+  - cbn [sem_ops] in H. destruct (sem_ops st q) as [ti|] eqn:Ei; cbn [rbind] in H; [|discriminate].
+    injection H as <-. cbn [plan_cols]. apply (IHq ti Hq eq_refl).
+Qed.
+
+Lemma Forall2_nth : forall {A B} (P : A -> B -> Prop) l1 l2 j a b,
+  Forall2 P l1 l2 -> nth_error l1 j = Some a -> nth_error l2 j = Some b -> P a b.
+Proof.
+  intros A B P l1 l2 j a b H. revert j. induction H; intros j Ha Hb; destruct j; cbn in Ha, Hb; try discriminate.
+  - injection Ha as <-. injection Hb as <-. assumption.
+  - eauto.
+Qed.
+
+Lemma pos_last_nth : forall x cs j, pos_last x cs = Some j -> nth_error cs j = Some x.
+Proof.
+  intros x cs. induction cs as [|y cs IH]; intros j H; cbn [pos_last] in H; [discriminate|].
+  destruct (pos_last x cs) as [i|].
+  - injection H as <-. cbn. apply IH. reflexivity.
+  - destruct (String.eqb x y) eqn:E; [|discriminate]. injection H as <-. apply String.eqb_eq in E. subst. reflexivity.
+Qed.
+
+Lemma typed_row_look : forall ecs cs r x c, Forall2 (cell_typed ecs) cs r -> row_look cs r x = Some c ->
+  ~ List.In x ecs -> exists i, c = CNode i.
+Proof.
+  intros ecs cs r x c H Hl Hn. unfold row_look in Hl.
+  destruct (pos_last x cs) as [j|] eqn:Ej; cbn [obind] in Hl; [|discriminate].
+  apply pos_last_nth in Ej. destruct (Forall2_nth _ _ _ _ _ _ H Ej Hl) as [Hc|[_ Hc]]; [exact Hc|contradiction].
+Qed.
+
+Lemma reads_node_cnode : forall st i, reads_node st (CNode i).
+Proof.
+  intros st i k v H. unfold fprop in H. cbn [cell_node_id cell_edge_id] in H.
+  destruct (get_node st i) as [n|] eqn:Eg; [|discriminate].
+  exists n. split; [|exact H]. unfold get_node in Eg. apply find_some in Eg. tauto.
+Qed.
+
+
+(** ** extra hygiene needed by the composite *)
+(** every expand target is a named variable (not the planner's name of anonymous edge columns) *)
+Fixpoint chain_tos_ok (p : lop) : bool :=
+  match p with
+  | LExpand _ to _ _ _ _ _ i => negb (String.eqb to anon) && chain_tos_ok i
+  | LFilter _ i => chain_tos_ok i
+  | _ => true
+  end.
+(** no "count of non-null" without an argument *)
+Definition agg_arg_ok (a : aggx) : bool :=
+  match ag_fn a, ag_arg a with ACountNN, None => false | _, _ => true end.
+Definition aggs_args_ok (p : lop) : Prop :=
+  forall gb aggs i, List.In (LAggregate gb aggs i) (subplans p) -> forallb agg_arg_ok aggs = true.
+
+(** ** (v) the finding classes restricted to a subplan *)
+Lemma existsb_false_In : forall {A} (f : A -> bool) l x, existsb f l = false -> List.In x l -> f x = false.
+Proof.
+  intros A f l x H Hx. destruct (f x) eqn:E; [|reflexivity].
+  assert (existsb f l = true) by (apply existsb_exists; exists x; auto). congruence.
+Qed.
+
+Lemma existsb_forallb : forall {A} (F G : A -> bool) l,
+  (forall x, List.In x l -> F x = false -> G x = true) -> existsb F l = false -> forallb G l = true.
+Proof.
+  intros A F G l H He. apply forallb_forall. intros x Hx. apply H; [exact Hx|].
+  eapply existsb_false_In; eassumption.
+Qed.
+
+Section Classes.
+  Variables (st : store) (p0 : lop).
+  Hypothesis Hk : k_c10_any st p0 = false.
+
+  Lemma k_split :
+    k_zone_edge st p0 = false /\ k_index_residual st p0 = false /\ k_index_num st p0 = false /\
+    k_range_num st p0 = false /\ k_fact_missing_level st p0 = false /\ k_fact_type_case st p0 = false /\
+    k_fact_not_path p0 = false /\ k_fact_agg_distinct p0 = false /\ k_zone_ne st p0 = false.
+  Proof.
+    pose proof Hk as H. unfold k_c10_any in H. rewrite !orb_false_iff in H. tauto.
+  Qed.
+
+  Lemma K_zone_edge : forall e i x, List.In (LFilter e i) (subplans p0) -> zone_check st e = Some false ->
+    List.In x (expr_props e) -> ~ List.In x (plan_edge_vars p0).
+  Proof.
+    intros e i x Hs Hz Hx Hin. destruct k_split as (H & _).
+    pose proof (existsb_false_In _ _ _ H Hs) as Hf. cbn beta iota in Hf. rewrite Hz in Hf.
+    pose proof (existsb_false_In _ _ _ Hf Hx) as Hf2. cbn beta in Hf2.
+    assert (existsb (String.eqb x) (plan_edge_vars p0) = true)
+      by (apply existsb_exists; exists x; split; [exact Hin|apply String.eqb_refl]).
+    congruence.
+  Qed.
+
+  Lemma K_zone_ne : forall e i, List.In (LFilter e i) (subplans p0) -> zone_check st e = Some false ->
+    zone_ne_odd st e = false.
+  Proof.
+    intros e i Hs Hz. destruct k_split as (_ & _ & _ & _ & _ & _ & _ & _ & H).
+    pose proof (existsb_false_In _ _ _ H Hs) as Hf. cbn beta iota in Hf. rewrite Hz in Hf. exact Hf.
+  Qed.
+
+  Lemma K_index : forall s x l e, List.In s (subplans p0) -> index_applies st s = Some (x, l, e) ->
+    only_eq_conds x e = true /\ forall c, List.In c (collect_eq x e) -> num_mix st (fst c) (snd c) = false.
+  Proof.
+    intros s x l e Hs Hi. destruct k_split as (_ & H1 & H2 & _).
+    pose proof (existsb_false_In _ _ _ H1 Hs) as Hf1. cbn beta in Hf1. rewrite Hi in Hf1.
+    pose proof (existsb_false_In _ _ _ H2 Hs) as Hf2. cbn beta in Hf2. rewrite Hi in Hf2.
+    split; [apply negb_false_iff in Hf1; exact Hf1|].
+    intros c Hc. exact (existsb_false_In _ _ _ Hf2 Hc).
+  Qed.
+
+  Lemma K_range : forall s k vs, List.In s (subplans p0) -> range_applies s = Some (k, vs) ->
+    index_applies st s = None ->
+    forall v, List.In v vs -> num_mix st k v = false /\ is_bool v = false.
+  Proof.
+    intros s k vs Hs Hr Hi v Hv. destruct k_split as (_ & _ & _ & H & _).
+    pose proof (existsb_false_In _ _ _ H Hs) as Hf. cbn beta in Hf. rewrite Hr, Hi in Hf.
+    cbn [negb andb] in Hf. pose proof (existsb_false_In _ _ _ Hf Hv) as Hf2. cbn beta in Hf2.
+    apply orb_false_iff in Hf2. exact Hf2.
+  Qed.
+
+  Lemma in_fact_chains : forall s, List.In s (subplans p0) -> (2 <= List.length (fst (chain_steps s)))%nat ->
+    List.In (chain_steps s) (fact_chains p0).
+  Proof.
+    intros s Hs Hl. unfold fact_chains. apply in_flat_map. exists s. split; [exact Hs|].
+    cbv zeta. apply Nat.leb_le in Hl. rewrite Hl. left. reflexivity.
+  Qed.
+
+  Lemma K_missing : forall s b, List.In s (subplans p0) -> (2 <= List.length (fst (chain_steps s)))%nat ->
+    run (opts_engine false) st (snd (chain_steps s)) = Ok b ->
+    exists a rs, fact_chain st b (fst (chain_steps s)) = Ok (a, rs) /\
+                 (a = List.length (fst (chain_steps s)) \/ rows b = []).
+  Proof.
+    intros s b Hs Hl Hr. destruct k_split as (_ & _ & _ & _ & H & _).
+    pose proof (existsb_false_In _ _ _ H (in_fact_chains s Hs Hl)) as Hf. cbn beta in Hf.
+    rewrite Hr in Hf. destruct (fact_chain st b (fst (chain_steps s))) as [[a rs]|]; [|discriminate].
+    exists a, rs. split; [reflexivity|].
+    apply andb_false_iff in Hf. destruct Hf as [Hf|Hf]; apply negb_false_iff in Hf.
+    - left. apply Nat.eqb_eq in Hf. exact Hf.
+    - right. destruct (rows b); [reflexivity|discriminate].
+  Qed.
+
+  Lemma K_type_case : forall s, List.In s (subplans p0) -> (2 <= List.length (fst (chain_steps s)))%nat ->
+    steps_no_type_case st (fst (chain_steps s)) = true.
+  Proof.
+    intros s Hs Hl. destruct k_split as (_ & _ & _ & _ & _ & H & _).
+    pose proof (existsb_false_In _ _ _ H (in_fact_chains s Hs Hl)) as Hf. cbn beta in Hf.
+    unfold steps_no_type_case. eapply existsb_forallb; [|exact Hf].
+    intros x _ Hx. cbn beta in Hx. destruct (s_type x) as [t|]; [|reflexivity].
+    eapply existsb_forallb; [|exact Hx]. intros e _ He. cbn beta in He.
+    destruct (eq_ci (etype e) t), (String.eqb (etype e) t); cbn in *; congruence.
+  Qed.
+
+  Lemma K_not_path : forall s, List.In s (subplans p0) -> (2 <= List.length (fst (chain_steps s)))%nat ->
+    not_a_path None (fst (chain_steps s)) = false.
+  Proof.
+    intros s Hs Hl. destruct k_split as (_ & _ & _ & _ & _ & _ & H & _).
+    exact (existsb_false_In _ _ _ H (in_fact_chains s Hs Hl)).
+  Qed.
+
+  Lemma K_agg_distinct : forall aggs i, List.In (LAggregate [] aggs i) (subplans p0) ->
+    (2 <= List.length (fst (chain_steps i)))%nat ->
+    forallb (fun a => match simple_count a with Some _ => true | None => false end) aggs = true ->
+    existsb ag_distinct aggs = false.
+  Proof.
+    intros aggs i Hs Hl Hsc. destruct k_split as (_ & _ & _ & _ & _ & _ & _ & H & _).
+    pose proof (existsb_false_In _ _ _ H Hs) as Hf. cbn beta iota in Hf.
+    apply Nat.leb_le in Hl. rewrite Hl, Hsc in Hf. exact Hf.
+  Qed.
+End Classes.
+
+Lemma lits_sub : forall p e i, plan_lits_ok p = true -> List.In (LFilter e i) (subplans p) -> lits_ok e = true.
+Proof.
+  induction p; intros e0 i0 Hl H; cbn [subplans] in H; cbn [plan_lits_ok] in Hl;
+    (destruct H as [H|H]; [try discriminate|]); try contradiction; eauto.
+  - injection H as <- <-. apply andb_true_iff in Hl. tauto.
+  - apply andb_true_iff in Hl. destruct Hl as [_ Hl]. eauto.
+Qed.
+
+Lemma edge_cols_sub : forall p0 s y, List.In s (subplans p0) -> List.In y (chain_edge_cols s) ->
+  y = anon \/ List.In y (plan_edge_vars p0).
+Proof.
+  intros p0 s. induction s; intros y Hs Hx; cbn [chain_edge_cols] in Hx; try contradiction.
+  - destruct Hx as [<-|Hx].
+    + destruct ev as [r|]; [|left; reflexivity]. right. unfold plan_edge_vars. apply in_flat_map.
+      eexists. split; [exact Hs|]. left. reflexivity.
+    + apply IHs; [|exact Hx]. eapply sub_expand_input; exact Hs.
+  - apply IHs; [|exact Hx]. eapply sub_filter_input; exact Hs.
+Qed.
+
+(** ** [steps_path] from column hygiene *)
+Definition nonanon (c : string) : bool := negb (String.eqb c anon).
+Definition steps_named (ss : list step) : Prop :=
+  Forall (fun s => exists e to, s_cols s = [e; to] /\ to <> anon) ss.
+
+Lemma nodup_filter_mid : forall (A B : list string) x, nonanon x = true ->
+  NoDup (filter nonanon (A ++ x :: B)) -> ~ List.In x A /\ ~ List.In x B.
+Proof.
+  intros A B x Hx H. rewrite filter_app in H. cbn [filter] in H. rewrite Hx in H.
+  apply NoDup_remove_2 in H. split; intros Hi; apply H; apply in_or_app; [left|right]; apply filter_In; auto.
+Qed.
+
+Lemma steps_path_of_hygiene : forall ss seen prev,
+  steps_named ss -> NoDup (filter nonanon (seen ++ flat_map s_cols ss)) ->
+  not_a_path prev ss = false -> steps_path seen prev ss.
+Proof.
+  induction ss as [|s r IH]; intros seen prev Hn Hnd Hp; [exact I|].
+  inversion Hn as [|? ? (e & to & Esc & Hto) Hn']; subst.
+  cbn [not_a_path] in Hp. apply orb_false_iff in Hp. destruct Hp as [Hp1 Hp2].
+  cbn [steps_path]. split.
+  - destruct prev as [t|]; [|exact I]. apply negb_false_iff, String.eqb_eq in Hp1. symmetry. exact Hp1.
+  - rewrite Esc. cbn [flat_map] in Hnd. rewrite Esc in Hnd.
+    assert (Hx : nonanon to = true) by (unfold nonanon; apply negb_true_iff, String.eqb_neq; exact Hto).
+    change (seen ++ [e; to] ++ flat_map s_cols r) with (seen ++ e :: to :: flat_map s_cols r) in Hnd.
+    assert (Hnd' : NoDup (filter nonanon ((seen ++ [e]) ++ to :: flat_map s_cols r)))
+      by (rewrite <- app_assoc; exact Hnd).
+    destruct (nodup_filter_mid _ _ _ Hx Hnd') as [H1 _].
+    split; [intros Hi; apply H1, in_or_app; left; exact Hi|].
+    split; [intros ->; apply H1, in_or_app; right; left; reflexivity|].
+    apply IH; [exact Hn'| |].
+    + rewrite <- app_assoc. exact Hnd.
+    + rewrite Esc in Hp2. exact Hp2.
+Qed.
+
+Lemma steps_named_chain : forall q, chain_only q = true -> chain_tos_ok q = true ->
+  steps_named (fst (chain_steps q)).
+Proof.
+  induction q; intros Hq Ht; cbn [chain_only] in Hq; try discriminate; try (constructor).
+  cbn [chain_steps]. destruct (is_single_hop minh maxh); [|constructor].
+  cbn [chain_tos_ok] in Ht. apply andb_true_iff in Ht. destruct Ht as [Ht1 Ht2].
+  specialize (IHq Hq Ht2). destruct (chain_steps q) as [ss b]. cbn [fst] in *.
+  apply Forall_app. split; [exact IHq|]. constructor; [|constructor].
+  exists (edge_col ev), to. split; [reflexivity|]. apply negb_true_iff, String.eqb_neq in Ht1. exact Ht1.
+Qed.
+
+Lemma NoDup_app_l : forall {A} (l1 l2 : list A), NoDup (l1 ++ l2) -> NoDup l1.
+Proof.
+  intros A l1 l2. induction l1 as [|a l1 IH]; intros H; [constructor|].
+  cbn [app] in H. inversion H as [|? ? Hn Hd]; subst. constructor.
+  - intros Hi. apply Hn. apply in_or_app. left. exact Hi.
+  - apply IH. exact Hd.
+Qed.
+
+Lemma chain_hygiene_input_e : forall f t ev d ty mn mx i, chain_hygiene (LExpand f t ev d ty mn mx i) -> chain_hygiene i.
+Proof.
+  intros f t ev d ty mn mx i H. unfold chain_hygiene in *. cbn [chain_cols_of] in H.
+  rewrite filter_app in H. eapply NoDup_app_l. exact H.
+Qed.
+
+Lemma chain_steps_path : forall q, chain_only q = true -> chain_hygiene q -> chain_tos_ok q = true ->
+  not_a_path None (fst (chain_steps q)) = false ->
+  steps_path (chain_cols_of (snd (chain_steps q))) None (fst (chain_steps q)).
+Proof.
+  intros q Hq Hh Ht Hp. apply steps_path_of_hygiene; [apply steps_named_chain; assumption| |exact Hp].
+  rewrite <- chain_cols_steps by exact Hq. exact Hh.
+Qed.
+
+
+Lemma try_index_applies : forall st x label e t',
+  try_index st (idx_of st) e (LScan x label) = Some t' ->
+  index_applies st (LFilter e (LScan x label)) = Some (x, label, e).
+Proof.
+  intros st x label e t' H. unfold try_index in H. unfold index_applies.
+  destruct (collect_eq x e); [discriminate|]. destruct (existsb _ _); [reflexivity|discriminate].
+Qed.
+
+Lemma extract_range_no_eq : forall e r x, extract_range e = Some r -> collect_eq x e = [].
+Proof.
+  intros e r x H. destruct e as [|?|? ?|op a b|? ?|? ?|?|?|?|? ?|? ?]; try discriminate.
+  destruct a as [va|ya|xa ka|? ? ?|? ?|? ?|?|?|?|? ?|? ?]; try discriminate;
+  destruct b as [vb|yb|xb kb|? ? ?|? ?|? ?|?|?|?|? ?|? ?]; try discriminate;
+  destruct op; try discriminate; reflexivity.
+Qed.
+
+Lemma extract_between_no_eq : forall e r x, extract_between e = Some r -> collect_eq x e = [].
+Proof.
+  intros e r x H. destruct e as [|?|? ?|? ? ?|a b|? ?|?|?|?|? ?|? ?]; try discriminate.
+  cbn [extract_between] in H.
+  destruct (extract_range a) as [ra|] eqn:Ea; [|discriminate].
+  destruct (extract_range b) as [rb|] eqn:Eb; [|destruct ra as [[[? ?] ?] ?]; discriminate].
+  cbn [collect_eq]. rewrite (extract_range_no_eq _ _ x Ea), (extract_range_no_eq _ _ x Eb). reflexivity.
+Qed.
+
+Lemma try_range_applies : forall st z x label e t',
+  try_range st z e (LScan x label) = Some t' -> index_applies st (LFilter e (LScan x label)) = None.
+Proof.
+  intros st z x label e t' H.
+  assert (Hc : collect_eq x e = []).
+  { destruct (extract_between e) as [r|] eqn:Eb; [eapply extract_between_no_eq; eauto|].
+    unfold try_range in H. rewrite Eb in H.
+    destruct (extract_range e) as [r|] eqn:Er; [eapply extract_range_no_eq; eauto|discriminate]. }
+  unfold index_applies. rewrite Hc. reflexivity.
+Qed.
+
+Lemma chain_steps_snd_single : forall f t ev d ty mn mx q, is_single_hop mn mx = true ->
+  snd (chain_steps (LExpand f t ev d ty mn mx q)) = snd (chain_steps q).
+Proof. intros. cbn [chain_steps]. rewrite H. destruct (chain_steps q). reflexivity. Qed.
+
+Lemma Forall2_length' : forall {A B} (P : A -> B -> Prop) l r, Forall2 P l r -> List.length r = List.length l.
+Proof. intros A B P l r H. induction H; cbn [List.length]; congruence. Qed.
+
+Section ChainCorrect.
+  Variables (st : store) (p0 : lop).
+  Hypothesis Hso : store_ok st.
+  Hypothesis Hvo : vals_ok st.
+  Hypothesis Hzo : zone_ok st.
+  Hypothesis Hk : k_c10_any st p0 = false.
+  Hypothesis Hanon : forall e i, List.In (LFilter e i) (subplans p0) -> ~ List.In anon (expr_props e).
+  Hypothesis Hlits : plan_lits_ok p0 = true.
+
+  Definition plan_correct (s : lop) : Prop := forall o t, sem_ops st s = Ok t -> fst (runc o st s) = Ok t.
+
+  Lemma fact_ready : forall q t, List.In q (subplans p0) -> chain_only q = true -> chain_hygiene q ->
+    chain_tos_ok q = true -> (2 <= List.length (fst (chain_steps q)))%nat ->
+    plan_correct (snd (chain_steps q)) -> sem_ops st q = Ok t ->
+    exists tb a, sem_ops st (snd (chain_steps q)) = Ok tb /\
+                 fact_chain st tb (fst (chain_steps q)) = Ok (a, rows t) /\
+                 chain_cols tb (fst (chain_steps q)) = cols t /\
+                 (a = List.length (fst (chain_steps q)) \/ rows tb = []).
+  Proof.
+    intros q t Hin Hco Hhy Hto Hl Hcorr H.
+    rewrite sem_ops_chain in H.
+    destruct (sem_ops st (snd (chain_steps q))) as [tb|] eqn:Etb; cbn [rbind] in H; [|discriminate].
+    pose proof (Hcorr (opts_engine false) tb Etb) as Hrun.
+    destruct (K_missing st p0 Hk q tb Hin Hl Hrun) as (a & rs & Hfc & Ha).
+    assert (Hcopb : chain_only (snd (chain_steps q)) = true)
+      by (eapply chain_only_sub; [exact Hco|apply chain_steps_sub]).
+    destruct (chain_typed st _ tb Hcopb Etb) as [Hcols Htyped].
+    assert (Hwf : rows_wf tb).
+    { unfold rows_wf. unfold tbl_typed in Htyped. rewrite Forall_forall in *. intros r Hr.
+      eapply Forall2_length'. apply Htyped. exact Hr. }
+    assert (Hsp : steps_path (cols tb) None (fst (chain_steps q))).
+    { rewrite Hcols. apply chain_steps_path; try assumption. apply (K_not_path st p0 Hk q Hin Hl). }
+    assert (Hne : fst (chain_steps q) <> []).
+    { intros E. rewrite E in Hl. cbn in Hl. lia. }
+    destruct (fact_chain_flat st tb _ t a rs Hwf Hne Hsp (K_type_case st p0 Hk q Hin Hl) H Hfc Ha) as [-> Hcc].
+    exists tb, a. auto.
+  Qed.
+
+  Lemma chain_correct : forall q, List.In q (subplans p0) -> chain_only q = true -> chain_hygiene q ->
+    chain_tos_ok q = true -> forall s, List.In s (subplans q) -> plan_correct s.
+  Proof.
+    induction q; intros Hin Hco Hhy Hto s Hs; cbn [chain_only] in Hco; try discriminate; cbn [subplans] in Hs.
+    - destruct Hs as [<-|[]]. intros o t H. exact H.
+    - (* LExpand *)
+      cbn [chain_tos_ok] in Hto. pose proof Hto as Hto0. apply andb_true_iff in Hto. destruct Hto as [_ Hto].
+      assert (IHall : forall s, List.In s (subplans q) -> plan_correct s).
+      { apply IHq; [eapply sub_expand_input; exact Hin|exact Hco|eapply chain_hygiene_input_e; exact Hhy|exact Hto]. }
+      destruct Hs as [<-|Hs]; [|apply IHall; exact Hs].
+      intros o t H. pose proof H as Hsem. cbn [sem_ops] in H.
+      destruct (sem_ops st q) as [ti|] eqn:Ei; cbn [rbind] in H; [|discriminate].
+      pose proof (IHall q (subplans_refl q) o ti Ei) as Hrin.
+      pose proof (runc_chain o st (LExpand from to ev d ty minh maxh q)) as Hc.
+      cbn [runc] in Hc |- *.
+      destruct (runc o st q) as [rin cin] eqn:E. cbn [fst] in Hrin. subst rin.
+      destruct (is_single_hop minh maxh) eqn:Hsh.
+      + cbn [snd] in Hc. unfold chain_of in Hc. rewrite Hsh in Hc. apply Some_inj in Hc.
+        cbn [fst]. rewrite Hc. cbn [ch_steps ch_base].
+        match goal with |- context [Nat.leb 2 ?n] => destruct (o_fact o && Nat.leb 2 n) eqn:Ef end.
+        * apply andb_true_iff in Ef. destruct Ef as [_ Hl]. apply Nat.leb_le in Hl.
+          assert (Hcorr : plan_correct (snd (chain_steps (LExpand from to ev d ty minh maxh q)))).
+          { rewrite (chain_steps_snd_single _ _ _ _ _ _ _ _ Hsh). apply IHall. apply chain_steps_sub. }
+          destruct (fact_ready _ t Hin Hco Hhy Hto0 Hl Hcorr Hsem) as (tb & a & Htb & Hfc & Hcc & _).
+          rewrite (Hcorr o tb Htb). cbn [rbind]. rewrite Hfc. cbn [rbind snd]. rewrite Hcc.
+          destruct t; reflexivity.
+        * cbn [rbind]. exact H.
+      + cbn [fst rbind]. exact H.
+    - (* LFilter *)
+      assert (IHall : forall s, List.In s (subplans q) -> plan_correct s).
+      { apply IHq; [eapply sub_filter_input; exact Hin|exact Hco|exact Hhy|exact Hto]. }
+      destruct Hs as [<-|Hs]; [|apply IHall; exact Hs].
+      intros o t H. cbn [sem_ops] in H.
+      destruct (sem_ops st q) as [ti|] eqn:Ei; cbn [rbind] in H; [|discriminate].
+      injection H as <-.
+      pose proof (IHall q (subplans_refl q) o ti Ei) as Hrin.
+      pose proof (lits_sub p0 p q Hlits Hin) as Hle.
+      cbn [runc]. destruct (runc o st q) as [rin cin] eqn:E. cbn [fst] in Hrin. subst rin. cbn [fst].
+      destruct (chain_typed st q ti Hco Ei) as [Hcols Htyped].
+      destruct (o_zone o && match zone_check st p with Some false => true | _ => false end) eqn:Ez.
+      + apply andb_true_iff in Ez. destruct Ez as [_ Ez].
+        assert (Hzc : zone_check st p = Some false) by (destruct (zone_check st p) as [[|]|]; congruence).
+        rewrite (plan_cols_chain st q ti Hco Ei). cbn [rbind]. unfold filter_tbl, mkT. f_equal. f_equal.
+        symmetry. apply filter_nil. intros r Hr.
+        apply zone_prune_sound; [exact Hzo|exact Hle|exact Hzc|exact (K_zone_ne st p0 Hk p q Hin Hzc)|].
+        intros x c Hx Hl. unfold tbl_typed in Htyped. rewrite Forall_forall in Htyped. specialize (Htyped r Hr).
+        destruct (typed_row_look _ _ _ _ _ Htyped Hl) as [i ->]; [|apply reads_node_cnode].
+        intros Hie.
+        destruct (edge_cols_sub p0 q x (sub_filter_input _ _ _ Hin) Hie) as [->|Hv].
+        * exact (Hanon p q Hin Hx).
+        * exact (K_zone_edge st p0 Hk p q x Hin Hzc Hx Hv).
+      + destruct (if o_index o then try_index st (idx_of st) p q else None) as [t'|] eqn:Ei2.
+        * destruct (o_index o); [|discriminate].
+          destruct q; try (cbn in Ei2; discriminate).
+          cbn in Ei. injection Ei as <-. f_equal. cbn [cols mkT].
+          pose proof (try_index_applies _ _ _ _ _ Ei2) as Hia.
+          destruct (K_index st p0 Hk _ _ _ _ Hin Hia) as [Ho Hm].
+          exact (index_path_eq st x label p t' Hso Hvo Hle Ho Hm Ei2).
+        * destruct (if o_range o then try_range st (o_zone o) p q else None) as [t'|] eqn:Er.
+          -- destruct (o_range o); [|discriminate].
+             destruct q; try (cbn in Er; discriminate).
+             cbn in Ei. injection Ei as <-. f_equal. cbn [cols mkT].
+             pose proof (try_range_applies _ _ _ _ _ _ Er) as Hia.
+             apply (range_path_eq st (o_zone o) x label p t' Hso Hvo Hzo Hle); [|exact Er].
+             intros k vs Hr. exact (K_range st p0 Hk _ k vs Hin Hr Hia).
+          -- cbn [rbind]. reflexivity.
+  Qed.
+End ChainCorrect.
+
+
+(** ** the factorized COUNT against the generic aggregate *)
+Definition is_simple (a : aggx) : bool := match simple_count a with Some _ => true | None => false end.
+
+Lemma simple_arg : forall a, is_simple a = true -> ag_arg a = None \/ exists x, ag_arg a = Some (EVar x).
+Proof.
+  intros a H. unfold is_simple, simple_count in H.
+  destruct (ag_fn a); destruct (ag_arg a) as [[]|]; try discriminate; eauto.
+Qed.
+
+Lemma prop_cols_vars : forall es cs, (forall e, List.In e es -> exists x, e = EVar x) -> prop_cols cs es = [].
+Proof.
+  induction es as [|e es IH]; intros cs H; [reflexivity|].
+  destruct (H e (or_introl eq_refl)) as [x ->]. cbn [prop_cols]. apply IH. intros e' He'. apply H. right. exact He'.
+Qed.
+
+Lemma agg_args_vars : forall aggs, forallb is_simple aggs = true ->
+  forall e, List.In e (flat_map (fun a => match ag_arg a with Some e => [e] | None => [] end) aggs) -> exists x, e = EVar x.
+Proof.
+  intros aggs H e He. apply in_flat_map in He. destruct He as (a & Ha & He).
+  rewrite forallb_forall in H. destruct (simple_arg a (H a Ha)) as [E|[x E]]; rewrite E in He.
+  - contradiction.
+  - destruct He as [<-|[]]. exists x. reflexivity.
+Qed.
+
+Lemma forallb_const_true : forall {A} (l : list A), forallb (fun _ => true) l = true.
+Proof. induction l; cbn; auto. Qed.
+Lemma filter_const_true : forall {A} (l : list A), filter (fun _ => true) l = l.
+Proof. induction l as [|a l IH]; cbn; [reflexivity|]. rewrite IH. reflexivity. Qed.
+
+Lemma Forall2_nth_l : forall {A B} (P : A -> B -> Prop) l r j a,
+  Forall2 P l r -> nth_error l j = Some a -> exists b, nth_error r j = Some b /\ P a b.
+Proof.
+  intros A B P l r j a H. revert j. induction H; intros j Hj; destruct j; cbn in Hj; try discriminate.
+  - injection Hj as <-. eexists. split; [reflexivity|assumption].
+  - cbn. eauto.
+Qed.
+
+Lemma nonnull_ints_length : forall {A} (f : A -> val) l,
+  Forall (fun r => exists z, f r = VInt z) l -> List.length (nonnull (map f l)) = List.length l.
+Proof.
+  intros A f l H. induction H as [|r l [z Hz] Hl IH]; [reflexivity|].
+  cbn [map nonnull filter]. rewrite Hz. cbn [List.length]. unfold nonnull in IH. rewrite IH. reflexivity.
+Qed.
+
+Lemma agg_vals : forall ecs cs rs aggs acols,
+  Forall (fun r => Forall2 (cell_typed ecs) cs r) rs ->
+  forallb is_simple aggs = true -> existsb ag_distinct aggs = false -> forallb agg_arg_ok aggs = true ->
+  mapM (fun a => match ag_arg a with Some e => do c <- key_col cs e; Ok (Some c) | None => Ok None end) aggs = Ok acols ->
+  mapM (fun ac => agg_value (fst ac)
+                    (match snd ac with Some c => map (fun r => cell_val (nth c r (CVal VNull))) rs | None => [] end)
+                    (List.length rs)) (combine aggs acols)
+  = Ok (map (fun _ => VInt (Z.of_nat (List.length rs))) aggs).
+Proof.
+  intros ecs cs rs aggs. induction aggs as [|a aggs IH]; intros acols Ht Hs Hd Ho H.
+  - cbn in H. injection H as <-. reflexivity.
+  - cbn [forallb] in Hs, Ho. cbn [existsb] in Hd.
+    apply andb_true_iff in Hs, Ho. apply orb_false_iff in Hd.
+    destruct Hs as [Hs1 Hs2]. destruct Ho as [Ho1 Ho2]. destruct Hd as [Hd1 Hd2].
+    cbn [mapM] in H.
+    destruct (match ag_arg a with Some e => do c <- key_col cs e; Ok (Some c) | None => Ok None end) as [x|] eqn:Ex;
+      cbn [rbind] in H; [|discriminate].
+    destruct (mapM _ aggs) as [y|] eqn:Ey; cbn [rbind] in H; [|discriminate]. injection H as <-.
+    cbn [combine mapM fst snd map]. rewrite (IH y Ht Hs2 Hd2 Ho2 eq_refl).
+    assert (Hv : agg_value a (match x with Some c => map (fun r => cell_val (nth c r (CVal VNull))) rs | None => [] end)
+                           (List.length rs) = Ok (VInt (Z.of_nat (List.length rs)))).
+    { unfold is_simple, simple_count in Hs1. unfold agg_arg_ok in Ho1. unfold agg_value. rewrite Hd1.
+      destruct (ag_fn a) eqn:Efn; destruct (ag_arg a) as [[]|] eqn:Earg; try discriminate; try reflexivity.
+      cbn [key_col] in Ex. destruct (pos_last x0 cs) as [c|] eqn:Ep; cbn [of_opt rbind] in Ex; [|discriminate].
+      injection Ex as <-. do 2 f_equal. f_equal. apply nonnull_ints_length.
+      apply pos_last_nth in Ep. rewrite Forall_forall in *. intros r Hr.
+      destruct (Forall2_nth_l _ _ _ _ _ (Ht r Hr) Ep) as (cl & Hcl & Hty).
+      rewrite (nth_error_nth _ _ _ Hcl). destruct Hty as [[i ->]|[[i ->] _]]; eexists; reflexivity. }
+    rewrite Hv. reflexivity.
+Qed.
+
+Lemma simple_coltype : forall a, is_simple a = true -> agg_coltype a = TInt.
+Proof.
+  intros a H. unfold is_simple, simple_count in H. unfold agg_coltype.
+  destruct (ag_fn a); try reflexivity; destruct (ag_arg a) as [[]|]; discriminate.
+Qed.
+
+Lemma push_row_ints : forall N aggs seen, forallb is_simple aggs = true -> List.length seen = List.length aggs ->
+  fst (push_row (map agg_coltype aggs) seen (map (fun _ => CVal (VInt N)) aggs)) = map (fun _ => CVal (VInt N)) aggs.
+Proof.
+  intros N aggs. induction aggs as [|a aggs IH]; intros seen Hs Hl; [reflexivity|].
+  destruct seen as [|sn seen]; [discriminate|]. cbn [forallb] in Hs. apply andb_true_iff in Hs. destruct Hs as [Hs1 Hs2].
+  cbn [map push_row]. rewrite (simple_coltype a Hs1). cbn [push_typed cell_val].
+  specialize (IH seen Hs2 ltac:(cbn in Hl; lia)).
+  destruct (push_row (map agg_coltype aggs) seen (map (fun _ => CVal (VInt N)) aggs)) as [r'' s'']. cbn [fst] in *.
+  rewrite IH. reflexivity.
+Qed.
+
+Lemma typed_rows_single : forall tys r, typed_rows tys [r] = [fst (push_row tys (map (fun _ => false) tys) r)].
+Proof. intros tys r. unfold typed_rows. cbn [push_rows]. destruct (push_row _ _ r). reflexivity. Qed.
+
+Lemma add_prop_cols_none : forall st t es, prop_cols (cols t) es = [] -> add_prop_cols st t es = Ok t.
+Proof. intros st t es H. unfold add_prop_cols. rewrite H. reflexivity. Qed.
+
+Lemma agg_count_generic : forall st ecs aggs t tout,
+  Forall (fun r => Forall2 (cell_typed ecs) (cols t) r) (rows t) ->
+  forallb is_simple aggs = true -> existsb ag_distinct aggs = false -> forallb agg_arg_ok aggs = true ->
+  aggregate_tbl st [] aggs t = Ok tout ->
+  tout = mkT (map agg_name aggs) [map (fun _ => CVal (VInt (Z.of_nat (List.length (rows t))))) aggs].
+Proof.
+  intros st ecs aggs t tout Ht Hs Hd Ho H.
+  unfold aggregate_tbl in H. cbn [app] in H.
+  rewrite (add_prop_cols_none st t _ (prop_cols_vars _ _ (agg_args_vars aggs Hs))) in H.
+  cbn [rbind mapM] in H.
+  destruct (mapM _ aggs) as [acols|] eqn:Eac; cbn [rbind] in H; [|discriminate].
+  cbv zeta in H. cbn [map forallb row_vals_eqb] in H.
+  rewrite forallb_const_true, filter_const_true in H. cbn [negb app] in H.
+  match type of H with context [mapM ?f (combine aggs acols)] =>
+    assert (Hav : mapM f (combine aggs acols) = Ok (map (fun _ => VInt (Z.of_nat (List.length (rows t)))) aggs))
+      by (exact (agg_vals ecs (cols t) (rows t) aggs acols Ht Hs Hd Ho Eac));
+    rewrite Hav in H end.
+  cbn [rbind] in H.
+  rewrite typed_rows_single, !map_map in H. cbn beta in H.
+  rewrite push_row_ints in H; [|exact Hs|rewrite !map_length; reflexivity].
+  injection H as <-. reflexivity.
+Qed.
+
+Lemma fact_count_len : forall st tb steps a rs star,
+  fact_chain st tb steps = Ok (a, rs) -> (2 <= List.length steps)%nat ->
+  (a = List.length steps \/ rows tb = []) -> fact_count tb a rs star = Z.of_nat (List.length rs).
+Proof.
+  intros st tb steps a rs star Hf Hl Ha. unfold fact_count. unfold fact_chain in Hf.
+  destruct steps as [|s0 r]; [discriminate|].
+  destruct (of_opt (pos_first (s_from s0) (cols tb))); cbn [rbind] in Hf; [|discriminate].
+  destruct (rows tb) as [|r0 rest].
+  - injection Hf as <- <-. reflexivity.
+  - destruct Ha as [Ha|Ha]; [|discriminate]. destruct star; [reflexivity|].
+    destruct a; [cbn in Ha, Hl; lia|reflexivity].
+Qed.
+
+Lemma chain_of_expand : forall o st i c, chain_of o st i = Some c -> plan_chain i = i.
+Proof. intros o st i c H. destruct i; try discriminate; reflexivity. Qed.
+
+Section TopCorrect.
+  Variables (st : store) (p0 : lop).
+  Hypothesis Hso : store_ok st.
+  Hypothesis Hvo : vals_ok st.
+  Hypothesis Hzo : zone_ok st.
+  Hypothesis Hk : k_c10_any st p0 = false.
+  Hypothesis Hanon : forall e i, List.In (LFilter e i) (subplans p0) -> ~ List.In anon (expr_props e).
+  Hypothesis Hlits : plan_lits_ok p0 = true.
+  Hypothesis Haggs : aggs_args_ok p0.
+
+  Lemma top_correct : forall p, List.In p (subplans p0) -> chain_only (plan_chain p) = true ->
+    chain_hygiene (plan_chain p) -> chain_tos_ok (plan_chain p) = true -> plan_correct st p.
+  Proof.
+    induction p; intros Hin Hco Hhy Hto; cbn [plan_chain] in Hco, Hhy, Hto;
+      try (apply (chain_correct st p0 Hso Hvo Hzo Hk Hanon Hlits _ Hin Hco Hhy Hto); apply subplans_refl);
+      try (assert (Hi : List.In p (subplans p0)) by (eapply subplans_trans; [exact Hin|right; apply subplans_refl]);
+           specialize (IHp Hi Hco Hhy Hto)).
+    1-6: intros o t H; cbn [sem_ops] in H;
+         (destruct (sem_ops st p) as [ti|] eqn:Ei; cbn [rbind] in H; [|discriminate]);
+         cbn [runc fst]; rewrite (IHp o ti Ei); exact H.
+    (* LAggregate *)
+    intros o t H. cbn [sem_ops] in H.
+    destruct (sem_ops st p) as [ti|] eqn:Ei; cbn [rbind] in H; [|discriminate].
+    pose proof (IHp o ti Ei) as Hrin. pose proof (runc_chain o st p) as Hc.
+    cbn [runc]. destruct (runc o st p) as [rin cin] eqn:E. cbn [fst snd] in Hrin, Hc |- *. subst rin.
+    destruct cin as [ch|]; [|exact H]. destruct group_by; [|exact H].
+    match goal with |- (if ?c then _ else _) = _ => destruct c eqn:Ef end; [|exact H].
+    symmetry in Hc. pose proof (chain_of_expand _ _ _ _ Hc) as Hpc. rewrite Hpc in Hco, Hhy, Hto.
+    apply chain_of_some in Hc. subst ch. cbn [ch_steps ch_base] in *.
+    apply andb_true_iff in Ef. destruct Ef as [Ef Hsc]. apply andb_true_iff in Ef. destruct Ef as [_ Hl].
+    apply Nat.leb_le in Hl.
+    assert (Hcorr : plan_correct st (snd (chain_steps p))).
+    { apply (chain_correct st p0 Hso Hvo Hzo Hk Hanon Hlits p Hi Hco Hhy Hto). apply chain_steps_sub. }
+    destruct (fact_ready st p0 Hk p ti Hi Hco Hhy Hto Hl Hcorr Ei) as (tb & a & Htb & Hfc & Hcc & Ha).
+    rewrite (Hcorr o tb Htb). cbn [rbind]. rewrite Hfc. cbn [rbind fst snd].
+    destruct (chain_typed st p ti Hco Ei) as [_ Hty].
+    rewrite (agg_count_generic st _ aggs ti t Hty Hsc (K_agg_distinct st p0 Hk aggs p Hin Hl Hsc) (Haggs _ _ _ Hin) H).
+    f_equal. unfold mkT. f_equal. f_equal. apply map_ext. intros a0.
+    rewrite (fact_count_len st tb _ a (rows ti) _ Hfc Hl Ha). reflexivity.
+  Qed.
+End TopCorrect.
+
+(** The theorem as stated is false in three ways (examples below); the proved statement adds three
+    hypotheses: the plan is a stack of Return/Project/Sort/Skip/Limit/Distinct/Aggregate over one
+    scan-expand-filter chain ([chain_only (plan_chain p)]), every expand target is a named variable
+    ([chain_tos_ok]), and no count-non-null aggregate lacks its argument ([aggs_args_ok]). *)
+Theorem run_eq_sem_ops_l : forall o st p t,
+  store_ok st -> vals_ok st -> zone_ok st -> filters_in_chain p = true -> plan_hygiene p ->
+  plan_lits_ok p = true -> k_c10_any st p = false ->
+  chain_only (plan_chain p) = true -> chain_tos_ok (plan_chain p) = true -> aggs_args_ok p ->
+  sem_ops st p = Ok t -> run o st p = Ok t.
+Proof.
+  intros o st p t Hso Hvo Hzo _ [Hhy Hanon] Hlits Hk Hco Hto Haggs H.
+  unfold run. apply (top_correct st p Hso Hvo Hzo Hk Hanon Hlits Haggs p (subplans_refl p) Hco Hhy Hto o t H).
+Qed.
+
+
+(** ** why the three extra hypotheses: the statement without them fails *)
+Definition cex_store : store :=
+  mkStore [mkNode 1 [] []; mkNode 2 [] []; mkNode 3 [] []; mkNode 4 [] []; mkNode 5 [] []]
+          [mkEdge 10 1 2 "T" []; mkEdge 11 2 3 "T" []; mkEdge 12 3 4 "T" []; mkEdge 13 1 5 "T" []] [] [].
+
+Lemma cex_store_ok : store_ok cex_store /\ vals_ok cex_store /\ zone_ok cex_store.
+Proof.
+  split; [|split].
+  - split; cbn; repeat (constructor; [cbn; intuition lia|]); constructor.
+  - intros n k v Hn Hkv. cbn in Hn.
+    repeat (destruct Hn as [<-|Hn]; [contradiction|]). contradiction.
+  - intros k c H. cbn in H. discriminate.
+Qed.
+
+Definition cex_hop (f t e : string) (i : lop) : lop := LExpand f t (Some e) Out None 1 (Some 1%nat) i.
+
+Definition unproved_statement : Prop :=
+  forall o st p t, store_ok st -> vals_ok st -> zone_ok st -> filters_in_chain p = true -> plan_hygiene p ->
+    plan_lits_ok p = true -> k_c10_any st p = false -> sem_ops st p = Ok t -> run o st p = Ok t.
+
+Ltac cex p :=
+  intros Hall; destruct cex_store_ok as (H1 & H2 & H3);
+  assert (Hs : exists t, sem_ops cex_store p = Ok t /\ run (opts_engine true) cex_store p <> Ok t)
+    by (eexists; split; [vm_compute; reflexivity|vm_compute; discriminate]);
+  destruct Hs as (t & Hs & Hr); apply Hr;
+  apply (Hall (opts_engine true) cex_store p t H1 H2 H3); try (vm_compute; reflexivity); try exact Hs;
+  (split; [unfold chain_hygiene; cbn; repeat (constructor; [cbn; intuition discriminate|]); constructor
+          |intros e i Hin; cbn in Hin; repeat (destruct Hin as [Hin|Hin]; [discriminate|]); contradiction]).
+
+(** an expand chain with a repeated column name below a Project: [plan_hygiene] only sees the
+    topmost chain *)
+Example run_eq_sem_ops_l_needs_shape : ~ unproved_statement.
+Proof.
+  cex (cex_hop "w" "q" "e4" (LProject [(EVar "w", None)]
+         (cex_hop "x" "w" "e3" (cex_hop "y" "x" "e2" (cex_hop "x" "y" "e1" (LScan "x" None)))))).
+Qed.
+
+(** expand targets named like the anonymous edge column escape [chain_hygiene] *)
+Example run_eq_sem_ops_l_needs_named_targets : ~ unproved_statement.
+Proof.
+  cex (cex_hop anon "w" "e3" (cex_hop anon anon "e2" (cex_hop "x" anon "e1" (LScan "x" None)))).
+Qed.
+
+(** count-non-null without an argument: 0 in the generic aggregate, the row count in the factorized one *)
+Example run_eq_sem_ops_l_needs_count_arg : ~ unproved_statement.
+Proof.
+  cex (LAggregate [] [mkAgg ACountNN None false None] (cex_hop "y" "z" "e2" (cex_hop "x" "y" "e1" (LScan "x" None)))).
 Qed.
